@@ -560,6 +560,13 @@ func (repo *Repository) VerifyMerkleProof(ctx context.Context,
 		return -1, false, merkle_proof.ErrNotVerifiable
 	}
 
+	// The merkle root calculation only uses the lowest bit of the index for each layer of the path,
+	// so an index outside of the tree would otherwise verify as the index of another tx.
+	depth := len(proof.Path) + len(proof.DuplicatedIndexes)
+	if proof.Index < 0 || (depth < 63 && proof.Index >= (1<<uint(depth))) {
+		return -1, false, errors.Wrap(merkle_proof.ErrBadIndex, "merkle proof")
+	}
+
 	if err := proof.Verify(); err != nil {
 		return -1, false, errors.Wrap(err, "merkle proof")
 	}
